@@ -9,7 +9,7 @@ SPEC = {
         'C01_load_save', 'C01_state_sorted', 'C01_state_last_write', 'C01_versioned_map',
     ],
     'allowed_axioms': [],
-    'shard': 4,
+    'shard': 8,
     'rule': 'one case = one history of committed batches run against the real mavl store on a temporary LevelDB '
             '(commit through Store.Set, through the Tree API, or through MemSet+Commit, chosen per batch; '
             'EnableMavlPrefix on for a third of the histories; first parent root nil or 32 zero bytes). '
